@@ -16,6 +16,7 @@ CONSTANTS
   CancelCalls = {}
   EnvTClose = FALSE
   OrderedStart = TRUE
+  Eager = TRUE
   WithHist = TRUE
 INVARIANTS Emit
 CHECK_DEADLOCK FALSE
